@@ -161,10 +161,7 @@ func CloseAccounts(j *Builder, reg *model.Registry, enable bool, partition date.
 			return nil
 		},
 		Posting: func(_ *model.Transaction, p *model.Posting) error {
-			if p.Account.IsAL() {
-				return nil
-			}
-			if p.Account == equityAccount {
+			if !p.Account.IsIE() {
 				return nil
 			}
 			quantities.Add(amounts.AccountCommodityKey(p.Account, p.Commodity), p.Quantity)
